@@ -279,3 +279,111 @@ class Real(PackedOps):
         m = self.m(pos[0])
         self.pool[kv['r']] = m.fracdet_map(2 ** int(kv['ord']))
         return 'ok'
+
+    # ---- scalar / boolean operators, masks, conversions ----------------------
+    PYOPS = {
+        'add': ('__add__', '__iadd__'), 'sub': ('__sub__', '__isub__'), 'mul': ('__mul__', '__imul__'),
+        'div': ('__truediv__', '__itruediv__'), 'pow': ('__pow__', '__ipow__'),
+        'and': ('__and__', '__iand__'), 'or': ('__or__', '__ior__'), 'xor': ('__xor__', '__ixor__'),
+    }
+
+    def op_sop(self, pos, kv):
+        m = self.m(pos[0])
+        if 'bits' in kv:
+            k = [int(t) for t in split_list(kv['bits'])]
+        elif kv.get('ktype', 'int') == 'int':
+            k = int(kv['k'])
+        else:
+            k = float(dec_dy(kv['k']))
+        inplace = kv.get('inplace') == '1'
+        r = getattr(m, self.PYOPS[kv['op']][1 if inplace else 0])(k)
+        if r is NotImplemented:
+            raise TypeError('NotImplemented')
+        if inplace:
+            self.pool[pos[0]] = r
+        else:
+            self.pool[kv['r']] = r
+        return 'ok'
+
+    def op_mask(self, pos, kv):
+        m = self.m(pos[0])
+        mk = self.m(kv['by'])
+        kw = {}
+        if 'bits' in kv:
+            kw['mask_bits'] = int(kv['bits'])
+        if 'bitarr' in kv:
+            kw['mask_bit_arr'] = [int(t) for t in split_list(kv['bitarr'])]
+        inplace = kv.get('inplace') == '1'
+        r = m.apply_mask(mk, in_place=inplace, **kw)
+        if not inplace:
+            self.pool[kv['r']] = r
+        return 'ok'
+
+    def op_astype(self, pos, kv):
+        m = self.m(pos[0])
+        dt = DTYPES[kv['dtype']]
+        self.pool[kv['r']] = m.astype(dt, sentinel=self.decode_sentinel(kv.get('sentinel'), dt))
+        return 'ok'
+
+    def op_pack(self, pos, kv):
+        self.pool[kv['r']] = self.m(pos[0]).as_bit_packed_map()
+        return 'ok'
+
+    def op_bop(self, pos, kv):
+        m = self.m(pos[0])
+        rhs = (kv['const'] == 'T') if 'const' in kv else self.m(kv['rhs'])
+        inplace = kv.get('inplace') == '1'
+        r = getattr(m, self.PYOPS[kv['op']][1 if inplace else 0])(rhs)
+        if inplace:
+            self.pool[pos[0]] = r
+        else:
+            self.pool[kv['r']] = r
+        return 'ok'
+
+    def op_inv(self, pos, kv):
+        m = self.m(pos[0])
+        if kv.get('inplace') == '1':
+            m.invert()
+        else:
+            self.pool[kv['r']] = ~m
+        return 'ok'
+
+    def op_bits(self, pos, kv):
+        m = self.m(pos[0])
+        pix = np.array([int(t) for t in split_list(kv.get('pix', '_'))], dtype=np.int64)
+        bits = [int(t) for t in split_list(kv.get('bits', '_'))]
+        if kv.get('mode', 'set') == 'clear':
+            m.clear_bits_pix(pix, bits)
+        else:
+            m.set_bits_pix(pix, bits)
+        return 'ok'
+
+    def op_chk(self, pos, kv):
+        m = self.m(pos[0])
+        pix = np.array([int(t) for t in split_list(kv.get('pix', '_'))], dtype=np.int64)
+        bits = [int(t) for t in split_list(kv.get('bits', '_'))]
+        return enc_bits(m.check_bits_pix(pix, bits))
+
+    def op_copy(self, pos, kv):
+        self.pool[kv['r']] = self.m(pos[0]).copy()
+        return 'ok'
+
+    def op_info(self, pos, kv):
+        m = self.m(pos[0])
+        inv = {v: k for k, v in DTYPES.items()}
+
+        def dts(dt):
+            return inv[np.dtype(dt).type]
+        if m.is_rec_array:
+            names = m.dtype.names
+            k = 'rec:%s:%d' % (','.join(dts(m.dtype[n]) for n in names), names.index(m.primary))
+        elif m.is_wide_mask_map:
+            k = 'wide:%d' % m.wide_mask_width
+        elif m.is_bit_packed_map:
+            k = 'packed'
+        else:
+            k = 'plain:' + dts(m.dtype)
+        covord = int(np.log2(m.nside_coverage))
+        spord = int(np.log2(m.nside_sparse))
+        sent = m._sentinel
+        return "kind=%s covord=%d spord=%d sentinel=%s" % (k, covord, spord, enc.enc_scalar(sent))
